@@ -17,6 +17,7 @@ import (
 	"time"
 
 	"github.com/tidwall/tile38/verif/harness/ev"
+	"github.com/tidwall/tile38/verif/harness/gen"
 	"github.com/tidwall/tile38/verif/harness/t38"
 	"pgregory.net/rapid"
 )
@@ -45,6 +46,7 @@ const (
 	mPwAuth
 	mProtLoop
 	mProtNonLoop
+	mPwStale // password set by CONFIG SET after the connection was opened and used
 )
 
 type mode struct {
@@ -78,6 +80,9 @@ type env struct {
 	loadCmds [][]string
 	prepared string // canonical dump of the prepared state
 	tplSnap  string // frozen copy of the template data directory
+	stale    []*preConn // connections opened and used before requirepass was configured
+	priming  [][]string // generated gated commands the pre-existing connections ran
+	staleN   int
 	ncuBatch []cellReplay
 	ncuMax   int
 	matrix   map[string]map[string]map[string]map[string]map[string]bool // sub -> mode -> variant -> outcome -> cmd
@@ -92,6 +97,7 @@ func (e *env) close() {
 	for _, n := range e.nodes() {
 		n.stopAsync()
 	}
+	e.dropStale()
 	if e.release != nil {
 		e.release()
 	}
@@ -173,6 +179,9 @@ func newEnv(t failer, cs map[string]*ev.Collector, wanted map[modeKind]bool) *en
 			if want(mPwAuth) {
 				e.modes = append(e.modes, &mode{name: "password-" + n.passVia + "-authenticated", kind: mPwAuth, n: n, sub: "auth"})
 			}
+		}
+		if want(mPwUnauth) {
+			e.modes = append(e.modes, &mode{name: "password-configset-preexisting-connection", kind: mPwStale, n: e.pwSet, sub: "auth"})
 		}
 	}
 	if want(mProtLoop) || want(mProtNonLoop) {
@@ -263,6 +272,7 @@ func (e *env) deepCheckNCU() (diff string, err error) {
 
 // prepare puts the same dataset (core canaries + extras) on every server.
 func (e *env) prepare(t failer, extras [][]string) {
+	e.dropStale()
 	e.loadCmds = append(coreState(), extras...)
 	if err := e.ref.restoreConfig(); err != nil {
 		harnessFatal(t, "%v", err)
@@ -403,7 +413,7 @@ func (e *env) resolve(args []string, k modeKind) []string {
 		case mFollower, mNCU:
 			// "no one" would legitimately end the follower role: not a gate matter
 			return []string{word, "127.0.0.1", itoa(e.sc.closedPort)}
-		case mPwUnauth, mProtNonLoop:
+		case mPwUnauth, mPwStale, mProtNonLoop:
 			// a live leader: must be refused, or the server would start following it
 			return []string{word, "127.0.0.1", itoa(e.ref.srv.Port)}
 		}
@@ -512,6 +522,9 @@ func (e *env) runCell(t failer, md *mode, cc cellCtx, ref *refInfo) *refInfo {
 		e.runNonLoopback(t, md, cc, w, ref)
 		return nil
 	}
+	if md.kind == mPwStale && cc.v.http() {
+		return nil // an HTTP request is its own connection: it cannot pre-exist
+	}
 	if preload != "" {
 		if _, err := n.do("SCRIPT", "LOAD", preload); err != nil {
 			harnessFatal(t, "%v", err)
@@ -523,9 +536,13 @@ func (e *env) runCell(t failer, md *mode, cc cellCtx, ref *refInfo) *refInfo {
 	case mPwAuth:
 		o.preAuth = n.pass
 		o.httpAuth = " " + n.pass + " "
-	case mPwUnauth:
+	case mPwUnauth, mPwStale:
 		o.probe = true
 		o.httpAuth = n.pass + "x"
+		if md.kind == mPwStale {
+			o.pre = e.takeStale(t)
+			c.Label("preexisting-connection-had-run:" + o.pre.primed)
+		}
 		if bname == "auth" && (cc.v == vPlain || cc.v == vJSON) && len(args) >= 2 && strings.TrimSpace(args[1]) == n.pass {
 			expectAuth = true
 		}
@@ -622,8 +639,11 @@ func (e *env) runCell(t failer, md *mode, cc cellCtx, ref *refInfo) *refInfo {
 			}
 			e.ncuBatch = append(e.ncuBatch, cc.replay(md.name, w))
 		}
-	case mPwUnauth:
+	case mPwUnauth, mPwStale:
 		c.Label("checked:unauthenticated")
+		if md.kind == mPwStale {
+			c.Label("checked:unauthenticated-preexisting-connection")
+		}
 		isExempt := exempt[bname] && cc.v.direct()
 		if ref.mutates || ref.serves || bname == "auth" {
 			c.NonTrivial(fmt.Sprintf("%s|%s|%s|%s", md.name, cc.v, cc.info.Name, oc))
@@ -815,7 +835,7 @@ var subRules = map[string]string{
 	"leader": "reference run of every cell on a plain leader holding the prepared canary dataset; cell = (command of the table enumerated from the dispatch switch of server.go + commands.json, one deterministic data-hitting shape and one generated shape per command and case, variant in {plain, OUTPUT json, TIMEOUT-wrapped, EVAL/EVALRO/EVALNA and their SHA forms around \"return tile38.call(...)\", HTTP with and without Authorization header}). Observed: reply class, dataset dump and aof_size before/after, secret canary tokens in the reply. Non-trivial: the run changes dump/aof (mutates) or returns canary data; distinct by (variant, command, mutates, returns-data, outcome class).",
 	"writes": "each cell re-run on a caught-up follower (real leader in-process, FOLLOW, caught_up) and on a READONLY yes server holding the same dataset. Oracle: if the reference run mutates, the reply here is an error; dump and aof_size never change. Non-trivial: cells whose reference run mutates; distinct by (mode, variant, command, outcome class).",
 	"catchingup": "each cell re-run on a follower started on a data directory holding the prepared dataset whose config file names a bound-but-not-listening port (never caught up). Oracle: mutating cells answer an error; cells that return canary data or are documented keys/search reads answered without error on the leader must answer an error ('catching up to leader' for direct and TIMEOUT forms); no reply contains a canary token; the log file and STATS of every key stay unchanged per cell and the in-memory dataset is compared after every batch (FOLLOW no one + dump), with per-cell pinpointing on mismatch. Non-trivial: mutating or data-returning cells; distinct by (variant, command, kind, outcome class).",
-	"auth": "each cell re-run on servers with requirepass (one from the config file, one via CONFIG SET) on an unauthenticated connection and on a connection that sent AUTH first (HTTP: wrong/no header vs right header). Unauthenticated oracle: every command except direct PING ECHO QUIT OUTPUT HEALTHZ AUTH answers an error; dump, aof_size and settings unchanged; no canary token in any byte received; a following GET on the same connection is refused unless the cell was AUTH with the configured password (after trimming); generated wrong passwords never authenticate. Authenticated oracle: same reply class and same resulting dataset as the plain leader. Non-trivial: cells that mutate or return data on the leader, and wrong-password cells; distinct by (mode, variant, command, outcome).",
+	"auth": "each cell re-run on servers with requirepass (one from the config file, one via CONFIG SET) on an unauthenticated connection and on a connection that sent AUTH first (HTTP: wrong/no header vs right header), and, on the CONFIG SET server, on PRE-EXISTING connections: batches of connections are opened while no password is configured, each runs one generated gated command (plain, after OUTPUT json, TIMEOUT-wrapped, or inside EVAL/EVALRO/EVALNA), then requirepass is set and every RESP cell is run on such a connection that never sent AUTH (same oracle as unauthenticated). Unauthenticated oracle: every command except direct PING ECHO QUIT OUTPUT HEALTHZ AUTH answers an error; dump, aof_size and settings unchanged; no canary token in any byte received; a following GET on the same connection is refused unless the cell was AUTH with the configured password (after trimming); generated wrong passwords never authenticate. Authenticated oracle: same reply class and same resulting dataset as the plain leader. Non-trivial: cells that mutate or return data on the leader, and wrong-password cells; distinct by (mode, variant, command, outcome).",
 	"protected": "each cell re-run on a server started in protected mode without password: from 127.0.0.1 it must behave like the plain leader (reply class, resulting dataset); from source address 127.0.0.2 the command plus a pipelined SET are written in one segment and the peer must receive exactly the -DENIED line and end of stream while dump/aof_size/settings stay unchanged. Non-trivial: cells that mutate or return data on the leader; distinct by (mode, variant, command, outcome).",
 }
 
@@ -835,6 +855,7 @@ func newCollectors(t *testing.T) map[string]*ev.Collector {
 func runMatrix(rt *rapid.T, e *env, only map[string]bool) {
 	extras := drawExtras(rt, ev.Pick(2, 5))
 	pool := keyspacePool(rt)
+	e.priming = drawPriming(rt)
 	type shaped struct {
 		info   cmdInfo
 		shapes [][]string
@@ -1091,5 +1112,175 @@ func TestC15_DevMode(t *testing.T) {
 			c.Label(fmt.Sprintf("impl-mirrored:devmode-massinsert-bypasses-gate:%s:changed=%v", n.name, changed))
 		}
 		c.Sample(map[string]any{"server": n.name, "cmd": "MASSINSERT 1 1", "reply": res.First, "dataset_or_log_changed": changed})
+	}
+}
+
+// ---- connections that exist before the password does ------------------------------------
+
+var primingForms = []string{"plain", "json", "timeout", "eval", "evalro", "evalna"}
+
+var defaultPriming = [][]string{
+	{"GET", "cnrK1", "cnrIa"}, {"SCAN", "cnrK3"}, {"SET", "cnrK1", "cnrIa", "POINT", "1", "2"}, {"KEYS", "*"},
+	{"DEL", "cnrK2", "cnrIb"}, {"NEARBY", "cnrK1", "POINT", "33.6", "-115.6"}, {"SERVER"},
+}
+
+// drawPriming draws the gated commands the pre-existing connections run
+// while no password is configured (keyspace commands and searches).
+func drawPriming(rt *rapid.T) [][]string {
+	var out [][]string
+	for i := 0; i < 18; i++ {
+		if rapid.IntRange(0, 3).Draw(rt, "primekind") == 0 {
+			out = append(out, searchCmd(rt, pick(rt, "primesearch", "scan", "search", "nearby", "within", "intersects"), false))
+		} else {
+			out = append(out, gen.KeyspaceCmd(rt, ns))
+		}
+	}
+	return out
+}
+
+func (e *env) dropStale() {
+	for _, p := range e.stale {
+		p.nc.Close()
+	}
+	e.stale = nil
+}
+
+// refillStale removes the password of the CONFIG SET server, opens a batch
+// of connections that each run one generated gated command (plain, after
+// OUTPUT json, TIMEOUT-wrapped, or from an EVAL/EVALRO/EVALNA script), sets
+// the password again and puts the dataset back. None of these connections
+// ever sent AUTH.
+func (e *env) refillStale(t failer) {
+	n := e.pwSet
+	if err := n.mustOK("CONFIG", "SET", "requirepass", ""); err != nil {
+		harnessFatal(t, "%v", err)
+	}
+	priming := e.priming
+	if len(priming) == 0 {
+		priming = defaultPriming
+	}
+	batch := ev.Pick(150, 300)
+	for i := 0; i < batch; i++ {
+		p, err := dialPre(n.srv.Addr)
+		if err != nil {
+			harnessFatal(t, "pre-existing connection: %v", err)
+		}
+		cmd := priming[e.staleN%len(priming)]
+		form := primingForms[(e.staleN/len(priming)+e.staleN)%len(primingForms)]
+		e.staleN++
+		var w []string
+		switch form {
+		case "plain":
+			w = cmd
+		case "json":
+			if _, err := p.do("OUTPUT", "json"); err != nil {
+				harnessFatal(t, "pre-existing connection: %v", err)
+			}
+			w = cmd
+		case "timeout":
+			w = append([]string{"TIMEOUT", "100"}, cmd...)
+		default:
+			w = []string{strings.ToUpper(form), luaCall(cmd), "0"}
+		}
+		if _, err := p.do(w...); err != nil {
+			harnessFatal(t, "pre-existing connection %s: %v", t38.CmdString(w), err)
+		}
+		p.primed = form
+		e.stale = append(e.stale, p)
+	}
+	if err := n.mustOK("CONFIG", "SET", "requirepass", n.pass); err != nil {
+		harnessFatal(t, "%v", err)
+	}
+	s, err := n.snapshot()
+	if err != nil {
+		harnessFatal(t, "%v", err)
+	}
+	if s.Dump != e.prepared {
+		if err := n.load(e.loadCmds); err != nil {
+			harnessFatal(t, "%v", err)
+		}
+		if s, err = n.snapshot(); err != nil {
+			harnessFatal(t, "%v", err)
+		}
+	}
+	if s.Dump != e.prepared || (n.wantFP != "" && s.FP != n.wantFP) {
+		harnessFatal(t, "%s not back in its mode after opening pre-existing connections (%s, want %s)", n.name, s.FP, n.wantFP)
+	}
+	n.base = s
+}
+
+func (e *env) takeStale(t failer) *preConn {
+	if len(e.stale) == 0 {
+		e.refillStale(t)
+	}
+	p := e.stale[len(e.stale)-1]
+	e.stale = e.stale[:len(e.stale)-1]
+	return p
+}
+
+// TestC15_PasswordChange records what happens to a connection that
+// authenticated with a password that is then replaced (the server keeps the
+// per-connection flag: mirrored, labelled), and checks that the old password
+// no longer authenticates new connections while the new one does.
+func TestC15_PasswordChange(t *testing.T) {
+	c := ev.New("C15", "pwchange", "exploration")
+	t.Cleanup(c.Flush)
+	c.Rule("deterministic probe: connection A authenticates with password P1; CONFIG SET requirepass P2 (and: removed, then P2). Checked: a new connection is refused without AUTH and with P1, accepted with P2. Recorded only (impl-mirrored, the code never clears Client.authd): whether A is still served.")
+	n, err := startNode("pwchange", t38.Opts{})
+	if err != nil {
+		t.Fatalf("HARNESS: %v", err)
+	}
+	defer n.stopAsync()
+	const p1, p2 = "cnrpw-old", "cnrpw-new"
+	n.pass = p1
+	if err := n.mustOK("SET", "cnrK1", "cnrIa", "STRING", "cnrSECRETstring"); err != nil {
+		t.Fatalf("HARNESS: %v", err)
+	}
+	for _, scenario := range []string{"changed", "removed-then-set"} {
+		if err := n.mustOK("CONFIG", "SET", "requirepass", p1); err != nil {
+			t.Fatalf("HARNESS: %v", err)
+		}
+		a, err := dialPre(n.srv.Addr)
+		if err != nil {
+			t.Fatalf("HARNESS: %v", err)
+		}
+		if v, err := a.do("AUTH", p1); err != nil || v.IsErr() {
+			t.Fatalf("HARNESS: AUTH p1: %v %v", v, err)
+		}
+		if _, err := n.configFP(); err != nil { // authenticates the admin connection with p1
+			t.Fatalf("HARNESS: %v", err)
+		}
+		if scenario == "removed-then-set" {
+			n.mustOK("CONFIG", "SET", "requirepass", "")
+		}
+		if err := n.mustOK("CONFIG", "SET", "requirepass", p2); err != nil {
+			t.Fatalf("HARNESS: %v", err)
+		}
+		n.pass = p2
+		c.Case()
+		c.NonTrivial(scenario)
+		v, err := a.do("GET", "cnrK1", "cnrIa")
+		served := err == nil && !v.IsErr()
+		c.Label(fmt.Sprintf("impl-mirrored:connection-authenticated-with-old-password-still-served=%v:%s", served, scenario))
+		c.Sample(map[string]any{"scenario": scenario, "old_connection_GET": clip(v.String(), 80)})
+		a.nc.Close()
+		for _, tc := range []struct {
+			pw     string
+			wantOK bool
+		}{{"", false}, {p1, false}, {p2, true}} {
+			c.Case()
+			o := execOpts{addr: n.srv.Addr, v: vPlain, wire: []string{"GET", "cnrK1", "cnrIa"}, preAuth: tc.pw}
+			res := execCell(o)
+			got := res.PrepErr == "" && res.HaveReply && !res.IsErr
+			c.Label(fmt.Sprintf("new-connection:auth=%q:served=%v", map[bool]string{true: "given", false: "none"}[tc.pw != ""], got))
+			if got != tc.wantOK {
+				what := fmt.Sprintf("after the password was %s from %s to %s: new connection with AUTH %q: served=%v (reply %s %s)", scenario, p1, p2, tc.pw, got, res.First, res.PrepErr)
+				c.Violation("gate:password-change:new-connection", what, map[string]any{"scenario": scenario, "auth": tc.pw})
+				t.Errorf("VIOLATION-CANDIDATE key=gate:password-change:new-connection: %s", what)
+			}
+		}
+		n.pass = p2
+		n.mustOK("CONFIG", "SET", "requirepass", p1)
+		n.pass = p1
 	}
 }
